@@ -251,6 +251,9 @@ class Writer(object):
             m = c.func.attr
             if m == 'astype' and isinstance(recv, Arr) and c.args:
                 isz, kind = dt_size(c.args[0])
+                if isz is None and any(isinstance(x, ast.Attribute) and x.attr in ('dtype', 'newbyteorder') for x in ast.walk(c.args[0])):
+                    # target type taken from the array's own dtype: the item size stays that of the input (a symbol, not 4)
+                    isz, kind = Poly.atom('itemsize(%s)' % norm(c.func.value)), 'f'
                 return recv.copy(isz=isz, kind=kind, val=recv.val if kind == 'i' else None)
             if m in ('tobytes', 'tostring'):
                 if isinstance(recv, Arr):
